@@ -214,6 +214,7 @@ func New(cfg *Config) (*World, error) {
 		w.Model[0] = map[int]int{}
 	} else {
 		w.Store = env.NewStore("mem://s1")
+		w.Store.Retain = cfg.RetainStore
 		w.Cache = env.NewCache(cfg.Cache)
 		root := mast.NewRoot(cfg.CreateOptions())
 		m, err := root.LoadMast(ctx, w.RemoteConfig(w.Store, true))
